@@ -277,3 +277,76 @@ Proof.
   apply andb_true_iff in H. destruct H as [H1 H2].
   exists q. split; [reflexivity|]. split; apply Qle_bool_iff; assumption.
 Qed.
+
+(* rows without overflow: the observed entropy is a number (never NaN) in the certified range *)
+Theorem check_entropy_row_sound (K : nat) (num den : positive) (slack : Q) (row : list N) (e : F32.t) :
+  check_entropy_row K num den slack row e = true ->
+  (fold_left N.add row 0 < 4294967296)%N ->
+  (Z.of_nat K ^ Zpos den <= 2 ^ Zpos num)%Z
+  /\ exists q, f32_to_Q e = Some q /\ (- slack <= q)%Q /\ (q <= (Zpos num # den) + slack)%Q.
+Proof.
+  unfold check_entropy_row, u32_mod. intros H Hlt.
+  destruct (N.ltb_spec (fold_left N.add row 0%N) 4294967296) as [_|Hge]; [|lia].
+  apply andb_true_iff in H. destruct H as [Hn H].
+  apply check_entropy_range_sound in H. destruct H as [Hub [Hnan|Hq]]; [|split; assumption].
+  rewrite Hnan in Hn. discriminate.
+Qed.
+
+Lemma list_same_Neqb (a b : list N) : list_same N.eqb a b = true -> a = b.
+Proof.
+  revert b. induction a as [|x a IH]; intros [|y b]; cbn; try discriminate; [reflexivity|].
+  intros H. apply andb_true_iff in H. destruct H as [Hx Hr]. apply N.eqb_eq in Hx. f_equal; auto.
+Qed.
+
+(* what the periodic check demands: for a matrix of period [delay] (delay < rows) in which
+   every row has a non-zero cell, the observed auto-correlation is a number within [slack] of 1 *)
+Theorem check_auto_periodic_sound (slack : Q) (m : list (list N)) (delay : nat) (c : F32.t) :
+  check_auto_periodic slack m delay c = true ->
+  delay < length m ->
+  (forall i, i + delay < length m -> nth_error m (i + delay) = nth_error m i) ->
+  Forall (fun r => exists x, In x r /\ x <> 0%N) m ->
+  exists q, f32_to_Q c = Some q /\ (Qabs (q - 1) <= slack)%Q.
+Proof.
+  unfold check_auto_periodic. intros H Hd Hper Hnz.
+  assert (E1 : (delay <? length m) = true) by (apply Nat.ltb_lt; exact Hd).
+  assert (E2 : periodic_b m delay = true).
+  { unfold periodic_b. apply forallb_forall. intros i Hi. apply in_seq in Hi.
+    rewrite Hper by lia. destruct (nth_error m i) as [r|] eqn:E.
+    - unfold rows_eqb. clear. induction r as [|x r IH]; cbn; [reflexivity|]. rewrite N.eqb_refl. exact IH.
+    - apply nth_error_None in E. lia. }
+  assert (E3 : no_zero_row m = true).
+  { unfold no_zero_row. apply forallb_forall. intros r Hr.
+    rewrite Forall_forall in Hnz. destruct (Hnz r Hr) as (x & Hx & Hx0).
+    apply existsb_exists. exists x. split; [exact Hx|]. apply negb_true_iff. apply N.eqb_neq. exact Hx0. }
+  rewrite E1, E2, E3 in H. cbn [andb] in H.
+  destruct (f32_to_Q c) as [q|]; [|discriminate].
+  exists q. split; [reflexivity|]. apply Qle_bool_iff. exact H.
+Qed.
+
+(* what check_entropy_exact demands *)
+Theorem check_entropy_exact_sound (slack : Q) (row : list N) (e : F32.t) :
+  check_entropy_exact slack row e = true ->
+  (fold_left N.add row 0 < 4294967296)%N ->
+  (forall s, nonzeros row = [s] -> exists q, f32_to_Q e = Some q /\ (Qabs q <= slack)%Q)
+  /\ (forall c, nonzeros row = [c; c] -> exists q, f32_to_Q e = Some q /\ (Qabs (q - 1) <= slack)%Q).
+Proof.
+  unfold check_entropy_exact, u32_mod. intros H Hlt.
+  destruct (N.ltb_spec (fold_left N.add row 0%N) 4294967296) as [_|Hge]; [|lia].
+  split.
+  - intros s Hs. rewrite Hs in H. destruct (f32_to_Q e) as [q|]; [|discriminate].
+    exists q. split; [reflexivity|]. apply Qle_bool_iff. exact H.
+  - intros c Hc. rewrite Hc, N.eqb_refl in H. destruct (f32_to_Q e) as [q|]; [|discriminate].
+    exists q. split; [reflexivity|]. apply Qle_bool_iff. exact H.
+Qed.
+
+(* what check_sic demands: when every term is well defined (finite non-negative frequency,
+   finite or -inf score), a finite information content is within rel * sum|f*s| + tiny of sum f*s *)
+Theorem check_sic_sound (rel tiny : Q) (bg : list F32.t) (fq sm : list (list F32.t)) (ic : F32.t)
+        (rows : list (list Q)) (q : Q) :
+  check_sic rel tiny bg fq sm ic = true ->
+  all_some (map2 (fun f s => sic_terms_row f s bg) fq sm) = Some rows ->
+  f32_to_Q ic = Some q ->
+  (Qabs (q - Qsum (concat rows)) <= rel * Qsum (map Qabs (concat rows)) + tiny)%Q.
+Proof.
+  unfold check_sic. intros H Hr Hq. rewrite Hr, Hq in H. apply Qle_bool_iff. exact H.
+Qed.
